@@ -338,6 +338,8 @@ def check(sc, run):
             ev(c, ("actor", int(fl[0])))
         elif k == "Z":
             last_seen[int(fl[0])] = c
+        elif k == "END":
+            cnt("hook_calls_not_recorded(identical to the previous one, checked online)", int(fl[0]))
         elif k == "RU":
             t = float(fl[0])
             cnt("run_until.calls")
@@ -387,14 +389,37 @@ def check(sc, run):
 def crash_key(run):
     """Violation key + text of a scenario whose process died."""
     noise = run["noise"]
+    recs = run["recs"]
+    # a kill time armed on an actor that terminates in the scheduling round of the set_kill_time() call: the timer fires on the dead actor
+    term, last = {}, (recs[-1][1] if recs else 0.0)
+    for i, (k, c, fl) in enumerate(recs):
+        if k == "TM":
+            term[int(fl[0])] = (i, c)
+    for i, (k, c, fl) in enumerate(recs):
+        if k == "Q" and fl[2] == "k":
+            target, date = int(fl[3]), float(fl[4])
+            if target in term and term[target][1] == c and last <= date:
+                order = "after" if term[target][0] > i else "before"
+                return ("C03:crash:kill-time-armed-on-actor-ending-in-the-same-round",
+                        "actor %s called set_kill_time(%r) at %r on actor %d, which ended at that very date (its termination was signalled %s the call was "
+                        "issued); the simulation died when the clock reached the kill time (last record at %r, status %s): %s"
+                        % (fl[0], date, c, target, order, last, run["status"], [l for l in noise if "Imposs" in l or "ERROR" in l or "egmentation" in l][:1]))
     san = [l for l in noise if "ERROR: AddressSanitizer" in l or "runtime error:" in l or "ERROR: LeakSanitizer" in l]
     if san:
         what = re.sub(r"0x[0-9a-f]+", "ADDR", san[0])
         m = re.search(r"AddressSanitizer: ([a-z-]+)", what)
         return "C03:sanitizer:%s" % (m.group(1) if m else "ubsan"), what[:300]
-    msg = [l for l in noise if "ssertion" in l or "CRITICAL" in l and "Deadlock" not in l or "xception" in l or "Impossible" in l]
+    msg = [l for l in noise if "ssertion" in l or ("CRITICAL" in l and "Deadlock" not in l) or "xception" in l or "Impossible" in l]
     cls = "unknown"
     if msg:
         m = re.search(r"Assertion [`'\"]?([^'`\"]+)", msg[0])
-        cls = re.sub(r"[^A-Za-z_!=<>. ()-]+", "", m.group(1)).strip().replace(" ", "_")[:60] if m else re.sub(r"[^A-Za-z ]+", "", msg[0]).strip().replace(" ", "_")[:60]
+        if m:
+            cls = "assert:" + re.sub(r"[^A-Za-z_!=<>.()-]+", "_", m.group(1)).strip("_")[:60]
+        elif "Impossible Did Happen" in msg[0]:
+            m2 = re.search(r"(\w+\.cpp):\d+:(\w+)", msg[0].split("ImpossibleError:")[-1])
+            cls = "impossible:" + (m2.group(2) if m2 else "unknown")
+        else:
+            cls = re.sub(r"[^A-Za-z]+", "_", msg[0].split("]")[-1]).strip("_")[:60]
+    elif run["status"] is not None and run["status"] >= 1000:
+        cls = "signal-%d" % (run["status"] - 1000)
     return "C03:crash:%s" % cls, "the program died with status %s: %s" % (run["status"], (msg or noise[-3:])[:3])
